@@ -32,7 +32,7 @@ SCOPE = {
              "coreLang 1.0.0; enumerated: every association x every pair of concrete (sub)types x both XML "
              "orientations as a one-link model (+ self-link where possible); entry-point shapes (1-3 steps on 1-2 "
              "assets, 1-2 attackers); id patterns (3 of {-7,0,1,13,2^62+} in every order); defense assignments of one "
-             "asset (4^3); + 6000 seeded random models of <=4 (mini) / <=3 (coreLang) assets, <=3 links, <=2 attackers, "
+             "asset (4^3); + 4000 seeded random models of <=4 (mini) / <=3 (coreLang) assets, <=3 links, <=2 attackers, "
              "each in json/yml, nested/flat/scalar 0.0.39 associations, random XML order and orientation",
     "thorough": "same enumerated part; 80000 random models of <=5 assets, <=5 links, <=3 attackers",
 }
@@ -120,7 +120,7 @@ def cases(tier, seed):
             o["explicit_defaults"] = expl
             yield {"lang": "mini", "name": "e4", "assets": [["A1", "a", 1, defs]], "links": [], "attackers": [], "opts": o}
     # random
-    n_rand = 6000 if tier == "quick" else 80000
+    n_rand = 4000 if tier == "quick" else 80000
     big = tier != "quick"
     for j in range(n_rand):
         lang = "mini" if j % 8 < 5 else "core"
